@@ -323,7 +323,7 @@ def r7(R, repo):
   t_every = [n for n in c.nodes if n.kind == 'if' and astu.src(n.ast) == 'keep_every_n_steps']
   t_gap = [n for n in c.nodes if n.kind == 'if' and 'step_number - last_kept' in astu.src(n.ast)]
   ok = len(conts) == 1 and len(t_every) == 1 and len(t_gap) == 1 and c.edge_guarded(conts[0], t_every[0], 'T') and c.edge_guarded(conts[0], t_gap[0], 'T') and \
-      '>= keep_every_n_steps' in astu.src(t_gap[0].ast)
+      any('>= keep_every_n_steps' in t_ for y_ in ast.walk(t_gap[0].ast) if isinstance(y_, ast.Compare) for t_ in astu.mirror_forms(y_))
   upd = [n for n in c.nodes if isinstance(n.stmt, ast.Assign) and astu.src(n.stmt) == 'last_kept = step_number']
   ok = ok and len(upd) == 1 and c.dominated(conts[0], upd)
   R.judge(len(conts) == 1 and len(t_every) == 1 and len(t_gap) == 1, ok, key_of(f, 'keep_every_n_steps spares a checkpoint and remembers it'), f,
